@@ -2,6 +2,7 @@ package vuego
 
 import (
 	"encoding/json"
+	"errors"
 	"fmt"
 	"html"
 	"io/fs"
@@ -416,10 +417,24 @@ func calledNames(expression string) []string {
 type funcCallError struct {
 	name string
 	err  error
+	bare bool // the message of err names the function already
 }
 
-func (e *funcCallError) Error() string { return e.name + "(): " + e.err.Error() }
+func (e *funcCallError) Error() string {
+	if e.bare {
+		return e.err.Error()
+	}
+	return e.name + "(): " + e.err.Error()
+}
 func (e *funcCallError) Unwrap() error { return e.err }
+
+// isFuncCallError reports whether err is (or wraps) the failure of a function called from an
+// expression - as opposed to "this text is not an expression of the kind I evaluate", which the
+// callers with several evaluators to try answer by trying the next one.
+func isFuncCallError(err error) bool {
+	fe := (*funcCallError)(nil)
+	return err != nil && errors.As(err, &fe)
+}
 
 // evalSegment evaluates a single pipe segment (either filter or expression)
 // isFirst indicates if this is the first segment
@@ -447,7 +462,11 @@ func (v *Vue) evalSegment(ctx VueContext, seg pipeSegment, input any, isFirst, f
 func (v *Vue) evalFilter(ctx VueContext, seg pipeSegment, input any, isFirst, fromInitial bool) (any, error) {
 	fn, exists := v.funcMap[seg.name]
 	if !exists {
-		return nil, fmt.Errorf("function '%s' not found", seg.name)
+		err := fmt.Errorf("function '%s' not found", seg.name)
+		if isFirst && !strings.Contains(seg.expr, "(") {
+			return nil, err // a lone word at the head may be a variable or a literal that a caller tries next
+		}
+		return nil, &funcCallError{name: seg.name, err: err, bare: true}
 	}
 
 	// Prepend input if:
@@ -475,7 +494,7 @@ func (v *Vue) evalFilter(ctx VueContext, seg pipeSegment, input any, isFirst, fr
 
 	result, err := v.callFunc(&ctx, fn, args...)
 	if err != nil {
-		return nil, fmt.Errorf("%s(): %w", seg.name, err)
+		return nil, &funcCallError{name: seg.name, err: err}
 	}
 	return result, nil
 }
